@@ -32,7 +32,7 @@ ASSUMPTIONS = [
 
 ATOMS = [
     "a", "bc", "1", "if", "lambda", "+", "==", "*", "(", ")", "[", "]", "{", "}", ",", " ", "'s'", '"x,y"', "'a)b'", '"]"', "$X", "$(ls)", "@(e)",
-    "!", "?", "#c\n", "\n", ":", ".", "f'{a},{b}'", "=", "`g*`",
+    "!", "?", "#c\n", "\n", ":", ".", "f'{a},{b}'", "=", "`g*`", "\n      ", "f'({a})'",
 ]
 PLACEMENTS = [
     ("{}\n", None),
@@ -45,7 +45,9 @@ PLACEMENTS = [
 LINES = ["x = 1", "    y", "", "# c", "ls -l | grep $X", "if a:", "        z", "s = '''t", "u'''", "(", ")", "  w  ", "a, b", "\tq", "f = f'''t {a}",
          "mid {b} x",
          # a leading '<' / '<<' puts the line two / four columns left of the block's indentation (dedented comments)
-         "<# d", "<<# e"]
+         "<# d", "<<# e",
+         # characters str.splitlines() takes for line ends, inside a multi-line string of the block
+         "r = '''a\x0cb", "c\u2028d'''"]
 AFTER = ["", "y = 2\n", "if z:\n    pass\n"]
 
 
@@ -243,7 +245,7 @@ def _with_src(case: dict) -> tuple[str, str]:
     after = "".join(ind + ln + "\n" for ln in case["after"].splitlines()) if case["after"] else ""
     # the block's own text: everything up to the next statement, minus the comment lines after its last code line
     # that are indented less than the block (they belong to no block), and whatever follows those
-    last = max(i for i, ln in enumerate(case["body"]) if _is_code(ln))
+    last = max((i for i, ln in enumerate(case["body"]) if _is_code(ln)), default=len(lines) - 1)
     keep = len(lines)
     for i in range(last + 1, len(lines)):
         if lines[i].lstrip().startswith("#") and len(lines[i]) - len(lines[i].lstrip()) < len(ind) + 4:
